@@ -124,7 +124,6 @@ def c20Ops : List (String × Handler) := [
     pure (exJson pcJson (p.add o >>= fun r => r.sub o))),
   ("pc.subadd", fun j => withPO j fun p o =>
     pure (exJson pcJson (p.sub o >>= fun r => r.add o))),
-  ("pc.eq", fun j => withPO j fun p o => pure (exJson Json.bool (p.eq o))),
   ("pc.sep2", fun j => withPQ j "q" fun p q => pure (exJson arrJson (p.sep2 q))),
   ("pc.rotate", fun j => withPQ j "center" fun p c => do
     pure (exJson pcJson (p.rotate c (← fRat j "c") (← fRat j "s")))),
